@@ -124,7 +124,7 @@ public:
     uint64_t& operator[](const char* name) {
         for (int i = 0; i < N; ++i) {
             if (m_slots[i].name[0] == 0) { strncpy(m_slots[i].name, name, 55); return m_slots[i].value; }
-            if (strcmp(m_slots[i].name, name) == 0) return m_slots[i].value;
+            if (strncmp(m_slots[i].name, name, 55) == 0) return m_slots[i].value;   // names are truncated to 55 characters
         }
         abort();
     }
